@@ -252,6 +252,18 @@ class Fold:
                 self.bind(e["pat"], item)
                 self.block(e["body"])
             return None
+        if k == "While":
+            n = 0
+            while True:
+                c = self.ev(e["cond"])
+                if not isinstance(c, bool):
+                    raise Stop("loop condition `%s` is not decided" % A.unparse(e["cond"])[:40])
+                if not c:
+                    return None
+                n += 1
+                if n > 4096:
+                    raise Stop("loop does not end")
+                self.block(e["body"])
         if k == "Return":
             raise Ret(self.ev(e["e"]) if e.get("e") is not None else None)
         if k == "Assign":
@@ -327,6 +339,8 @@ class Fold:
         if len(segs) == 2 and head in NEWTYPES and last == "new" and len(args) == 1 and isinstance(args[0], int):
             # the constructors only assert their range; the value is the argument
             return TV(head, args[0])
+        if len(segs) == 2 and last in ("from", "try_from") and head in ("usize", "u8", "u16", "u32", "u64", "i32", "i64", "isize") and len(args) == 1 and isinstance(args[0], int) and not isinstance(args[0], bool):
+            return args[0]  # lossless integer widening
         if len(segs) == 2 and last in ("from",) and head in NEWTYPES and len(args) == 1:
             fn = self.op_impl("From", head, tyname(args[0]), "from")
             if fn is not None:
